@@ -666,6 +666,76 @@ func (k *c18) scopes(n int) {
 	}
 }
 
+// scopesDependent: the inner builtin's COLLECTION operand mentions the outer closure's element (`1..#`, `[#, 2]`):
+// it must be evaluated in the outer scope, before the inner scope exists - for every builtin in the inner position.
+func (k *c18) scopesDependent() {
+	key := "c18:closure-innermost"
+	outer := []c18level{{"1..4", c18rangeVals(1, 4)}, {"[3, 0, 2]", []int{3, 0, 2}}, {"filter(0..5, {# > 2})", []int{3, 4, 5}}}
+	evens := func(a int) []int {
+		out := []int{}
+		for x := 1; x <= a; x++ {
+			if x%2 == 0 {
+				out = append(out, x)
+			}
+		}
+		return out
+	}
+	inner := []struct {
+		src string
+		f   func(a int) interface{}
+	}{
+		{"all(1..#, {# % 2 == 0})", func(a int) interface{} { return len(evens(a)) == len(c18rangeVals(1, a)) }},
+		{"any(1..#, {# % 2 == 0})", func(a int) interface{} { return len(evens(a)) > 0 }},
+		{"none(1..#, {# % 2 == 0})", func(a int) interface{} { return len(evens(a)) == 0 }},
+		{"one(1..#, {# % 2 == 0})", func(a int) interface{} { return len(evens(a)) == 1 }},
+		{"count(1..#, {# % 2 == 0})", func(a int) interface{} { return len(evens(a)) }},
+		{"filter(1..#, {# % 2 == 0})", func(a int) interface{} { return c18any(evens(a)) }},
+		{"map(1..#, {# * 2})", func(a int) interface{} {
+			out := []interface{}{}
+			for x := 1; x <= a; x++ {
+				out = append(out, 2*x)
+			}
+			return out
+		}},
+		{"one([#, 2, 4], {# == 2})", func(a int) interface{} { return a != 2 }},
+		{"count([#, #], {# > 2})", func(a int) interface{} {
+			if a > 2 {
+				return 2
+			}
+			return 0
+		}},
+	}
+	modes := []Mode{{Env: "struct", Optimize: true}, {Env: "struct", Optimize: false}, {Env: "none"}, {Env: "map", Optimize: true}}
+	env := k.newEnv()
+	for _, A := range outer {
+		for _, in := range inner {
+			for _, wrap := range []string{"map(%s, {%s})", "map(%s, {[#, %s]})"} {
+				src := fmt.Sprintf(wrap, A.src, in.src)
+				out := []interface{}{}
+				for _, a := range A.vals {
+					if strings.Contains(wrap, "[#,") {
+						out = append(out, []interface{}{a, in.f(a)})
+					} else {
+						out = append(out, in.f(a))
+					}
+				}
+				for _, m := range modes {
+					k.c.R.Case(key+"|"+src+"|"+m.String(), true)
+					o := k.run(src, m, env)
+					if o.kind == "reject" {
+						k.count(key + ":rejected")
+						continue
+					}
+					k.count(key + ":dependent-collection")
+					if exp := "ok " + valSx(out).String(); o.String() != exp {
+						k.violate(key, "the collection operand of a nested builtin is not evaluated in the enclosing closure's scope", src, "(computed in Go)", m, env, exp, o.String())
+					}
+				}
+			}
+		}
+	}
+}
+
 // ---- identity 8: membership in an integer range = the two-sided comparison ----
 
 type c18num struct {
@@ -835,6 +905,7 @@ func runC18(c *Ctx) {
 	k.stream(1000000, false, func() {
 		k.builtins(1200 * scale)
 		k.scopes(200 * scale)
+		k.scopesDependent()
 		k.inRange(300 * scale)
 		k.slices(200 * scale)
 	})
